@@ -1,9 +1,9 @@
-CONSTANTS Entries = {"payload", "skip", "t0", "t3", "t8"}
+CONSTANTS Entries <- QuickEntries
           Types = {0, 3, 4, 5, 6, 7, 8, 9, 10, 11}
           Vers = {0, 1, 2, 3}
           Lens = {0, 7, 8, 12, 16, 20, 21, 24, 32, 34, 36}
-          MaxAvail = 37
+          Avails <- QuickAvails
 SPECIFICATION Spec
-INVARIANTS Bounded OkMeansComplete ErrMeansBroken SkipStopsAtEof Emit
+INVARIANTS Bounded OkMeansComplete ErrMeansBroken SkipStopsAtEof NeverWaitsBeyondHeader Emit
 PROPERTY Terminates
 CHECK_DEADLOCK FALSE
